@@ -140,6 +140,17 @@ HAND_DOCS = [
       "un": {"allOf": [{"$ref": "#/definitions/Unt"}], "default": "s"}, "uv": {"allOf": [{"$ref": "#/definitions/Unt"}], "default": [1, 2]},
       "u3": {"allOf": [{"$ref": "#/definitions/UntN"}], "default": 300}, "us": {"allOf": [{"$ref": "#/definitions/UntS"}], "default": {"v": [300]}}},
     "definitions": {k: GRID_DEFS[k] for k in ("Ext", "Int", "Adj", "Unt", "UntN", "UntS")}}),
+  # enumerated values that differ in case / separators only (distinct variant identifiers all the same): the default names
+  # exactly ONE of them
+  ("near-values", {"title": "Root", "type": "object", "properties": {
+      "p1": {"allOf": [{"$ref": "#/definitions/Unit"}], "default": "mW"}, "p2": {"allOf": [{"$ref": "#/definitions/Unit"}], "default": "MW"},
+      "p3": {"allOf": [{"$ref": "#/definitions/Unit"}], "default": "kW"},
+      "q1": {"allOf": [{"$ref": "#/definitions/Sep"}], "default": "a-b"}, "q2": {"allOf": [{"$ref": "#/definitions/Sep"}], "default": "ab"},
+      "t1": {"allOf": [{"$ref": "#/definitions/Tagged"}], "default": {"Kw": 1}}, "t2": {"allOf": [{"$ref": "#/definitions/Tagged"}], "default": {"KW": 2}}},
+    "definitions": {"Unit": {"type": "string", "enum": ["mW", "MW", "kW"]}, "Sep": {"type": "string", "enum": ["a-b", "ab"]},
+                    "Tagged": {"oneOf": [{"type": "object", "required": ["Kw"], "properties": {"Kw": {"type": "integer"}}, "additionalProperties": False},
+                                         {"type": "object", "required": ["KW"], "properties": {"KW": {"type": "integer"}}, "additionalProperties": False}]},
+                    "DU": {"type": "string", "enum": ["mW", "MW"], "default": "MW"}}}),
   ("type-defaults", {"title": "Root", "type": "object", "properties": {"a": {"$ref": "#/definitions/DS"}, "b": {"$ref": "#/definitions/DE"}, "c": {"$ref": "#/definitions/DN"}},
     "definitions": {"DS": dict(_STRUCT, default={"a": 3, "t": "w"}), "DE": dict(_E, default="green"),
                     "DN": {"type": "integer", "format": "uint16", "default": 515},
